@@ -198,12 +198,27 @@ def run(tier, seed):
                 chk.count(f"reg:{fmt}:{part}", len(orig) * 8)
     # the values that bind the statement to the presented data may not be shortened or emptied either (each genuinely signed / certified)
     from harness import regcat
-    for fmt, names in (("tpm", ("extradata-empty", "extradata-truncated", "attested-name-empty", "attested-name-only-alg")),
+    # ... nor may the signature cover another arrangement of the same data (part of the authenticator data, the two halves swapped, a hash of the base)
+    while authcat.variants_left("signed-over-another-arrangement-of-the-same-data", scope="c06:"):
+        for kind in ("ES256-P256", "RS256", "EdDSA"):
+            s = authcat.Scn(kind)
+            authcat.apply(authcat.FAULTS, "signed-over-another-arrangement-of-the-same-data", s, scope="c06:" if kind == "ES256-P256" else f"c06-{kind}:")
+            pol, a = s.build()
+            A.run_case(pol, a, "record", "reject", f"signature-base/{s.sign_over}/{kind}")
+    for fmt, names in (("tpm", ("extradata-empty", "extradata-truncated", "extradata-part-of-the-digest", "attested-name-empty", "attested-name-only-alg")), ("fido-u2f", ("credential-key-coordinate-longer-than-the-field", "signed-other-public-key")),
                        ("apple", ("nonce-empty", "nonce-truncated")), ("android-key", ("challenge-empty",))):
         for nm in names:
-            for kind in ("ES256-P256", "RS256"):
+            for kind in (("ES256-P256", "RS256") if fmt != "fido-u2f" else ("ES256-P256",)):
                 s = regsim.RScn(fmt, kind, kind if fmt == "tpm" else "ES256-P256")
-                regcat.FORMAT_FAULTS[fmt][nm](s, rng)
+                reps = 1
+                while True:
+                    authcat.apply(regcat.FORMAT_FAULTS[fmt], nm, s, scope=f"c06:{fmt}:{kind}:")
+                    if not authcat.variants_left(nm, scope=f"c06:{fmt}:{kind}:") or reps > 12:
+                        break
+                    pd_, reg_ = regsim.build(s)
+                    B.run_case(regrun.policy_of(pd_), reg_, "dict", "reject", f"binding-value/{nm}/{fmt}/{kind}", scn=s)
+                    s = regsim.RScn(fmt, kind, kind if fmt == "tpm" else "ES256-P256")
+                    reps += 1
                 pd, reg = regsim.build(s)
                 B.run_case(regrun.policy_of(pd), reg, "dict", "reject", f"binding-value/{nm}/{fmt}/{kind}", scn=s)
     chk.exhaustive = True
